@@ -344,7 +344,7 @@ fn step_name(s: &RStep) -> &'static str {
     }
 }
 
-const ERR_KINDS: &[ErrorKind] = &[ErrorKind::Other, ErrorKind::UnexpectedEof, ErrorKind::TimedOut];
+const ERR_KINDS: &[ErrorKind] = &[ErrorKind::Other, ErrorKind::UnexpectedEof, ErrorKind::TimedOut, ErrorKind::Interrupted];
 
 pub fn run_c12(ctx: &Ctx, rep: &mut Report) {
     // workloads are numbered globally and dealt to shards; each is enumerated completely
@@ -486,10 +486,35 @@ enum WStep {
     Remove(String),
     SetState(String, u32),
     FlushFile,
+    /// Faults are only enumerated at underlying calls made after this point (the part
+    /// before it is a fixed preamble that the other families already sweep).
+    Marker,
 }
 
 fn build_write_script(rng: &mut Rng, w: u64) -> Vec<WStep> {
     let mut s = Vec::new();
+    if w % 8 == 5 {
+        // family C (version 4): the directory grows by a sector at the 33rd entry (counting
+        // the root), which rewrites the header's directory-sector count; the sweep covers
+        // the calls from just before that creation on
+        s.push(WStep::CreateStorage("/d".into()));
+        for k in 0..30 {
+            s.push(WStep::OpenNew { slot: 0, path: format!("/d/s{k:02}") });
+            s.push(WStep::CloseHandle { slot: 0 });
+        }
+        s.push(WStep::Marker);
+        s.push(WStep::OpenNew { slot: 0, path: "/d/s30".into() });
+        s.push(WStep::Write { slot: 0, len: 100 + (w as usize % 3) * 30 });
+        s.push(WStep::CloseHandle { slot: 0 });
+        if rng.chance(1, 2) {
+            s.push(WStep::CreateStorage("/e".into()));
+        } else {
+            s.push(WStep::OpenNew { slot: 0, path: "/s31".into() });
+            s.push(WStep::CloseHandle { slot: 0 });
+        }
+        s.push(WStep::FlushFile);
+        return s;
+    }
     if (w / 2) % 2 == 1 && w % 2 == 0 {
         // family B (version 3 files only: a v4 FAT sector costs 1024 underlying writes to
         // initialise, which makes the exhaustive sweep quadratic in the wrong thing): directory-sector and FAT-sector growth, resize across the cutoff in both
@@ -597,6 +622,7 @@ fn w_step_name(s: &WStep) -> &'static str {
         WStep::Remove(_) => "remove_stream",
         WStep::SetState(..) => "set_state_bits",
         WStep::FlushFile => "flush",
+        WStep::Marker => "marker",
     }
 }
 
@@ -809,6 +835,7 @@ fn w_exec(st: &mut WState, step: &WStep, rep: &mut Report) -> Result<Result<(), 
         }
         WStep::SetState(p, v) => st.cf.set_state_bits(p, *v),
         WStep::FlushFile => st.cf.flush(),
+        WStep::Marker => Ok(()),
     };
     // (1) the API call during which an underlying call failed must report an error
     let hits = st.shared.hits();
@@ -825,8 +852,8 @@ fn w_exec(st: &mut WState, step: &WStep, rep: &mut Report) -> Result<Result<(), 
     Ok(r.map_err(|e| e.kind()))
 }
 
-fn w_run(script: &[WStep], version: Version, faults: Vec<Fault>, rep: &mut Report) -> Result<u64, (String, String)> {
-    w_run_observed(script, version, faults, rep).map(|x| x.0)
+fn w_run(script: &[WStep], version: Version, faults: Vec<Fault>, rep: &mut Report) -> Result<(u64, [u64; 3]), (String, String)> {
+    w_run_observed(script, version, faults, rep, None).map(|x| (x.0, x.2))
 }
 
 pub fn run_c13(ctx: &Ctx, rep: &mut Report) {
@@ -849,8 +876,8 @@ pub fn run_c13(ctx: &Ctx, rep: &mut Report) {
             v.extend(extra);
             ctx.witness(case, v)
         };
-        let n = match guard::catch(|| w_run(&script, version, vec![], rep)) {
-            Ok(Ok(n)) => n,
+        let (n, start_at) = match guard::catch(|| w_run(&script, version, vec![], rep)) {
+            Ok(Ok(x)) => x,
             Ok(Err((sig, d))) => {
                 rep.finding(format!("fault-free | {sig}"), d, witness(vec![]));
                 w += ctx.nshards;
@@ -867,25 +894,39 @@ pub fn run_c13(ctx: &Ctx, rep: &mut Report) {
         let mut complete = true;
         // the fault-free run counts all kinds; enumerate per kind mask so that every
         // write / seek / flush position is hit
-        for (mask, label) in [(K_WRITE, "write"), (K_SEEK, "seek"), (K_FLUSH, "flush")] {
-            let mut k = 0u64;
+        // "full": from the k-th write on the store accepts nothing (every write returns Ok(0))
+        for (mask, label) in [(K_WRITE, "write"), (K_SEEK, "seek"), (K_FLUSH, "flush"), (K_WRITE, "full")] {
+            // calls of this kind made before the script's marker (0 without a marker)
+            let mut k = match mask {
+                K_WRITE => start_at[0],
+                K_SEEK => start_at[1],
+                _ => start_at[2],
+            }
+            .saturating_sub(4);
             loop {
                 if !ctx.time_left() && ctx.only_case.is_none() {
                     complete = false;
                     break;
                 }
-                let partial = mask == K_WRITE && k % 3 == 1;
-                let kind = if k % 2 == 0 { ErrorKind::Other } else { ErrorKind::TimedOut };
-                let plan = vec![Fault { kinds: mask, k, err: kind, sticky: false, partial }];
+                let full = label == "full";
+                let partial = mask == K_WRITE && k % 3 == 1 && !full;
+                let kind = if full {
+                    ErrorKind::WriteZero
+                } else if k % 2 == 0 {
+                    ErrorKind::Other
+                } else {
+                    ErrorKind::TimedOut
+                };
+                let plan = vec![Fault { kinds: mask, k, err: kind, sticky: full, partial }];
                 let mut fired = false;
                 crate::guard::case_begin(case); // CPU budget per faulty run, not per workload
                 let before = rep.get(&format!("positions.{label}"));
                 let r = guard::catch(|| {
                     let (res, hit) = {
                         // run and report whether the fault fired at all
-                        let res = w_run_observed(&script, version, plan, rep);
+                        let res = w_run_observed(&script, version, plan, rep, Some(n));
                         match res {
-                            Ok((n, hit)) => (Ok(n), hit),
+                            Ok((n, hit, _)) => (Ok(n), hit),
                             Err(e) => (Err(e), true),
                         }
                     };
@@ -925,7 +966,7 @@ pub fn run_c13(ctx: &Ctx, rep: &mut Report) {
 }
 
 /// Like `w_run` but also says whether the armed fault fired.
-fn w_run_observed(script: &[WStep], version: Version, faults: Vec<Fault>, rep: &mut Report) -> Result<(u64, bool), (String, String)> {
+fn w_run_observed(script: &[WStep], version: Version, faults: Vec<Fault>, rep: &mut Report, fault_free_calls: Option<u64>) -> Result<(u64, bool, [u64; 3]), (String, String)> {
     let (file, shared) = MonFile::new(Vec::new());
     let cf = match version {
         Version::V4 => OpenOptions::new().max_buffer_size(1024).create_with(file),
@@ -934,12 +975,34 @@ fn w_run_observed(script: &[WStep], version: Version, faults: Vec<Fault>, rep: &
     .map_err(|e| ("create | failed without faults".to_string(), format!("{e}")))?;
     let base = shared.seq();
     shared.arm(faults);
+    // bounded progress in logical steps: with three attempts per step plus the harness's
+    // own readbacks a run needs a small multiple of the fault-free call count; at fifty
+    // times that every further underlying call fails, so a retry loop in the crate ends
+    if let Some(n) = fault_free_calls {
+        shared.set_step_budget(50 * n + 20_000);
+    }
     let mut st = WState { shared: shared.clone(), cf, handles: Vec::new(), api: 0, writes: 0, structure_tainted: false };
+    let kind_counts = |sh: &Shared| {
+        let g = sh.lock();
+        [g.c.writes, g.c.seeks, g.c.flushes]
+    };
+    let at_arm = kind_counts(&shared);
+    let mut marker = [0u64; 3];
     for step in script {
+        if matches!(step, WStep::Marker) {
+            let now = kind_counts(&shared);
+            marker = [now[0] - at_arm[0], now[1] - at_arm[1], now[2] - at_arm[2]];
+            continue;
+        }
         let mut attempts = 0;
         loop {
             attempts += 1;
-            match w_exec(&mut st, step, rep)? {
+            let r = w_exec(&mut st, step, rep)?;
+            if std::env::var_os("CFBMON_TRACE").is_some() {
+                let hs: Vec<String> = st.handles.iter().flatten().map(|h| format!("{}: len()={} model_len={} pos={} tainted={}", h.path, h.stream.len(), h.content.len(), h.pos, h.tainted)).collect();
+                eprintln!("  {:?} (attempt {attempts}) -> {:?}   [{}] seq={}", step, r, hs.join("; "), shared.seq());
+            }
+            match r {
                 Ok(()) => {
                     if attempts > 1 {
                         rep.count("retries_that_succeeded");
@@ -959,5 +1022,8 @@ fn w_run_observed(script: &[WStep], version: Version, faults: Vec<Fault>, rep: &
         let _ = h.stream.flush();
     }
     let fired = !shared.hits().is_empty();
-    Ok((shared.seq() - base, fired))
+    if shared.over_budget() {
+        return Err(("no bounded progress | underlying calls exceed 50x the fault-free run".to_string(), format!("the faulty run made {} underlying calls; the fault-free run makes {}", shared.seq() - base, fault_free_calls.unwrap_or(0))));
+    }
+    Ok((shared.seq() - base, fired, marker))
 }
